@@ -249,18 +249,26 @@ Definition oracle_conn (es s : list edge) (tbl : list (bytes * option cursor))
   end.
 
 (** ** the model on a connection request *)
+(** a misbehaving application: the edge getter fails ([Some false]: returns an error,
+    [Some true]: returns a promise that delivers an error); ResolveTotalCount fails *)
 Record creq := {
-  cq_kind : kind; cq_all : bool; cq_promise : bool;
+  cq_kind : kind; cq_all : bool; cq_promise : bool; cq_fail : option bool; cq_total_fails : bool;
   cq_sel_edges : bool; cq_sel_pi : bool; cq_sel_total : bool;
   cq_first : option Z; cq_last : option Z; cq_after : option bytes; cq_before : option bytes;
   cq_apos : pos; cq_bpos : pos;
   cq_calls : list rcall; cq_obs : obs
 }.
 
-Definition mk_app (all promise : bool) (es window : list edge) (total : Z) : app cursor edge :=
-  let wrap (l : list edge) := Ok (if promise then Promise (Ok l) else Sync l) in
+Definition mk_app (all promise : bool) (fail : option bool) (total_fails : bool)
+           (es window : list edge) (total : Z) : app cursor edge :=
+  let wrap (l : list edge) :=
+    match fail with
+    | Some false => Err EApp
+    | Some true => Ok (Promise (Err EApp))
+    | None => Ok (if promise then Promise (Ok l) else Sync l)
+    end in
   {| app_has_all := all; app_all := wrap es; app_edges := fun _ _ _ => wrap window;
-     app_total := if all then None else Some (Ok total) |}.
+     app_total := if all then None else Some (if total_fails then Err EApp else Ok total) |}.
 
 Definition ser_edge (e : edge) : bytes * Z := (cursor_encode (fst e), snd e).
 Definition oedge_eqb (a b : bytes * Z) : bool := bytes_eqb (fst a) (fst b) && Z.eqb (snd a) (snd b).
@@ -295,7 +303,7 @@ Definition model_args (q : creq) : args :=
 (** compare the observation with the model; [None] = agree *)
 Definition compare_conn (es : list edge) (total : Z) (q : creq) : option sexp :=
   let window := match cq_calls q with r :: _ => rc_returned r | [] => [] end in
-  let a := mk_app (cq_all q) (cq_promise q) es window total in
+  let a := mk_app (cq_all q) (cq_promise q) (cq_fail q) (cq_total_fails q) es window total in
   let '(r, calls) := resolve cursor edge cursor_ltb ecur cursor_encode (cursor_decode (cq_kind q)) a (model_args q) in
   let expected_calls :=
     calls ++ match await r with
@@ -339,7 +347,23 @@ Definition compare_conn (es : list edge) (total : Z) (q : creq) : option sexp :=
         end
   end.
 
+Definition dec_fail (l : list sexp) : option (option bool * bool) :=
+  match field "app-fails" l with
+  | Some [f; t] =>
+      match as_bool t with
+      | Some t' => if is_sym "no" f then Some (None, t')
+                   else if is_sym "sync" f then Some (Some false, t')
+                   else if is_sym "async" f then Some (Some true, t')
+                   else None
+      | None => None
+      end
+  | _ => None
+  end.
+
 Definition dec_creq (l : list sexp) : option creq :=
+  match dec_fail l with
+  | None => None
+  | Some (fl, tf) =>
   match field1 "kind" l, field1 "mode" l, field1 "promise" l, field "sel" l with
   | Some k, Some m, Some pr, Some [se; sp; st] =>
       match dec_kind k, dec_mode_all m, as_bool pr, as_bool se, as_bool sp, as_bool st with
@@ -352,7 +376,7 @@ Definition dec_creq (l : list sexp) : option creq :=
                   | Some ap, Some bp, Some cs, Some o =>
                       match dec_pos ap, dec_pos bp, as_list_of dec_rcall cs, dec_obs o with
                       | Some ap', Some bp', Some cs', Some o' =>
-                          Some {| cq_kind := k'; cq_all := m'; cq_promise := pr';
+                          Some {| cq_kind := k'; cq_all := m'; cq_promise := pr'; cq_fail := fl; cq_total_fails := tf;
                                   cq_sel_edges := se'; cq_sel_pi := sp'; cq_sel_total := st';
                                   cq_first := f'; cq_last := la'; cq_after := af'; cq_before := be';
                                   cq_apos := ap'; cq_bpos := bp'; cq_calls := cs'; cq_obs := o' |}
@@ -367,7 +391,11 @@ Definition dec_creq (l : list sexp) : option creq :=
       | _, _, _, _, _, _ => None
       end
   | _, _, _, _ => None
+  end
   end.
+
+Definition app_misbehaves (q : creq) : bool :=
+  match cq_fail q with Some _ => true | None => false end || cq_total_fails q.
 
 (** evidence classes of a connection request (from the model and the spec, not from the
     implementation's answer) *)
@@ -390,6 +418,7 @@ Definition conn_classes (es s : list edge) (q : creq) : list string :=
                    (if next then ["has-next"] else []) ++ (if prev then ["has-prev"] else [])
                | _ => []
                end in
+  if app_misbehaves q then ["conn"; "app-error"] else
   ["conn"] ++ (if cq_all q then ["mode-all"] else ["mode-window"]) ++ (if cq_promise q then ["promise"] else ["sync"])
   ++ (match cq_kind q with KInt => [] | KStr => ["string-cursors"] end)
   ++ (if rejected then ["arg-error"] else [])
@@ -407,9 +436,12 @@ Definition run_conn (es : list edge) (total : Z) (tbl : list (bytes * option cur
   : sexp + list string :=
   let s := rank_sort es in
   if negb (is_connection_of es s) then inl (v_bad "edge-set-not-distinct")
-  else if negb (forallb (window_ok s) (cq_calls q)) then inl (v_bad "harness-window-not-ok")
+  else if negb (app_misbehaves q) && negb (forallb (window_ok s) (cq_calls q)) then inl (v_bad "harness-window-not-ok")
   else
-    match oracle_conn es s tbl (cq_first q) (cq_last q) (cq_apos q) (cq_bpos q) (cq_obs q) with
+    (* C09 speaks about applications that answer; with a failing one only "no crash" is demanded
+       by the oracle, and the model's error paths are compared *)
+    match (if app_misbehaves q then match cq_obs q with OPanic => Some "crash" | _ => None end
+           else oracle_conn es s tbl (cq_first q) (cq_last q) (cq_apos q) (cq_bpos q) (cq_obs q)) with
     | Some key => inl (v_oracle_fail key [])
     | None =>
         match compare_conn es total q with
@@ -484,7 +516,7 @@ Definition check_walk (l : list sexp) : sexp :=
       | Some es, Some total, Some tbl, Some n' =>
           let fwd := is_sym "fwd" d in
           let base := filter (fun x => match untag x with
-                                       | Some (t, _) => String.eqb t "kind" || String.eqb t "mode" || String.eqb t "promise" || String.eqb t "sel"
+                                       | Some (t, _) => String.eqb t "kind" || String.eqb t "mode" || String.eqb t "promise" || String.eqb t "sel" || String.eqb t "app-fails"
                                        | None => false end) l in
           match map_opt (dec_step base) ss with
           | None => v_bad "walk-steps"
